@@ -1576,3 +1576,37 @@ def number_parts(check: Check, repo: Repo, rule: str = "NUMBER-PARTS") -> None:
 
 def _reaches_on_zero(m: ast.AST, c: ast.Call) -> bool:
     return True
+
+
+def escape_pairs(check: Check, repo: Repo, rule: str = "ESCAPE-RANGE") -> None:
+    """Clause of ESCAPE-RANGE: JSON-style surrogate pairs, folded over concrete two-escape sources."""
+    from sa.tables import Rec
+
+    fn = repo.func("language.lexer", "Lexer.read_escaped_unicode_fixed_width")
+    mod = repo.mod("language.lexer")
+    valid = [(0xD800, 0xDC00), (0xD83D, 0xDE00), (0xDBFF, 0xDFFF), (0xDBF8, 0xDC00)]
+    invalid = [(0xD800, 0xDBFF), (0xD800, 0xE000), (0xD800, 0xFC00), (0xD800, 0xFFFF), (0xDBFF, 0xFFFF), (0xDBF8, 0xFC00),
+               (0xD800, 0x0041), (0xDC00, 0xDC00)]
+
+    def fold(lead: int, trail: int):
+        body = f"\\u{lead:04X}\\u{trail:04X}\\\""
+        ev = Evaluator(repo, mod, {
+            "self": Rec(source=Rec(body=body)), "position": 0,
+            "EscapeSequence": lambda v, size: ("ESC", v, size),
+        })
+        try:
+            return ev._exec_block(fn.body)
+        except NotStatic as e:
+            return ("REJECT",) if "statement Raise" in str(e) else ("ERROR", str(e))
+
+    for lead, trail in valid:
+        r = fold(lead, trail)
+        want = ("ESC", chr(0x10000 + ((lead - 0xD800) << 10) + (trail - 0xDC00)), 12)
+        check.ob(rule, fn, f"\\u{lead:04X}\\u{trail:04X} is one supplementary character", r == want,
+                 f"U+{ord(want[1]):X}, width 12" if r == want else f"folds to {r!r}, expected {want!r}")
+    for lead, trail in invalid:
+        r = fold(lead, trail)
+        ok = r == ("REJECT",)
+        check.ob(rule, fn, f"\\u{lead:04X}\\u{trail:04X} is not a surrogate pair", ok,
+                 "reaches the GraphQLSyntaxError" if ok else
+                 (f"folds to {r!r}: " + ("an exception other than the syntax error leaves the lexer" if r[0] == "ERROR" else "accepted as a pair")))
